@@ -62,8 +62,13 @@ enum Act { A_CONNECT,
            A_RST,
            A_HOLD,
            A_RELEASE,
-           A_TICK };
-static const char* kActNames[] = { "connect", "send-first-half", "send-rest", "send-request", "read", "close", "shutdown-wr", "rst", "hold-writes", "release-writes", "tick" };
+           A_TICK,
+           // two client actions before the server's loops run again (data and FIN / RST in one wake-up)
+           A_SEND_A_CLOSE,
+           A_SEND_W_CLOSE,
+           A_SEND_W_SHUTWR,
+           A_SEND_W_RST };
+static const char* kActNames[] = { "connect", "send-first-half", "send-rest", "send-request", "read", "close", "shutdown-wr", "rst", "hold-writes", "release-writes", "tick", "send-first-half+close", "send-request+close", "send-request+shutdown-wr", "send-request+rst" };
 struct Step
 {
     int8_t act, conn;
@@ -111,6 +116,10 @@ static void gen(History& h, CState c[2], int nconn, int depth, int maxDepth)
             {
                 push(A_SEND_A, k, [](CState& x) { x.partial = true; });
                 push(A_SEND_W, k, [](CState&) {});
+                push(A_SEND_A_CLOSE, k, [](CState& x) { x.st = 3; });
+                push(A_SEND_W_CLOSE, k, [](CState& x) { x.st = 3; });
+                push(A_SEND_W_SHUTWR, k, [](CState& x) { x.st = 2; });
+                push(A_SEND_W_RST, k, [](CState& x) { x.st = 3; });
             }
             else
                 push(A_SEND_B, k, [](CState& x) { x.partial = false; });
@@ -220,6 +229,26 @@ static void run_history(const History& h, vr::Ctx& ctx, uint64_t& steps)
             c->send_bytes(kReqA + kReqB);
             after(true);
             break;
+        case A_SEND_A_CLOSE:
+            c->send_bytes(kReqA);
+            c->close_orderly();
+            after(true);
+            break;
+        case A_SEND_W_CLOSE:
+            c->send_bytes(kReqA + kReqB);
+            c->close_orderly();
+            after(true);
+            break;
+        case A_SEND_W_SHUTWR:
+            c->send_bytes(kReqA + kReqB);
+            c->shutdown_wr();
+            after(true);
+            break;
+        case A_SEND_W_RST:
+            c->send_bytes(kReqA + kReqB);
+            c->reset();
+            after(true);
+            break;
         case A_READ:
             after(false);
             break;
@@ -259,6 +288,16 @@ static void run_history(const History& h, vr::Ctx& ctx, uint64_t& steps)
             r.cl[k].close_orderly();
             after(true);
         }
+    // every client is gone (orderly close or reset) and the loops have run dry: the connections must have been
+    // released by now - not only later, when the idle time-out happens to reap them
+    {
+        size_t peersNow = 0;
+        for (auto& t : r.srv.transports())
+            peersNow += t->peers.size();
+        size_t fdsNow0 = sim::list_fds().size();
+        if (peersNow || fdsNow0 > r.baselineFds)
+            ctx.violation("c08:connection-not-released-when-the-client-is-gone:only-the-time-out-would-reap-it", d + "\"peers\":" + std::to_string(peersNow) + ",\"descriptors_over_baseline\":" + std::to_string((long)fdsNow0 - (long)r.baselineFds) + "}");
+    }
     for (int t = 0; t < 6; ++t)
     {
         sim::tick(500);
@@ -332,6 +371,11 @@ static void run_history(const History& h, vr::Ctx& ctx, uint64_t& steps)
             steps += sim::settle();
             probe.pump();
             ok = probe.received.compare(0, 12, "HTTP/1.1 200") == 0;
+            // exactly one response, and it is the answer to the probe's own request
+            {
+                size_t bodyAt = probe.received.find("\r\n\r\n");
+                ok            = ok && bodyAt != std::string::npos && probe.received.substr(bodyAt + 4) == "ok:/lifecycle" && probe.received.find("HTTP/1.1", 8) == std::string::npos;
+            }
             probe.close_orderly();
             sim::await_readiness();
             steps += sim::settle();
